@@ -44,8 +44,14 @@ func dropAll(s string) []string { return nil }
 // fast path applied to the wrong tokenizer.
 func upperFields(s string) []string { return strings.Fields(strings.ToUpper(s)) }
 
+// defaultWrapped hands the engine the exported default tokenizer behind a closure: the engine
+// cannot recognise it and takes its generic path, calling the exported function itself. The
+// oracle still uses the documented behaviour.
+func defaultWrapped(s string) []string { return bs.BasicWhitespaceLowerTokenizer(s) }
+
 var Tokenizers = []refsem.Tokenizer{
 	{Name: "default", Fn: bs.BasicWhitespaceLowerTokenizer, Ref: refsem.DefaultRef},
+	{Name: "defaultWrapped", Fn: defaultWrapped, Ref: refsem.DefaultRef},
 	{Name: "splitNonAlnum", Fn: splitNonAlnum, Ref: splitNonAlnum},
 	{Name: "bigrams", Fn: bigrams, Ref: bigrams},
 	{Name: "identity", Fn: identity, Ref: identity},
